@@ -39,9 +39,14 @@ def dims(lo=1, hi=6):
 # ----------------------------------------------------------------------------
 # quaternion arrays
 
-PATTERNS = ("generic", "int", "pure_imag", "axis", "sparse", "unit", "scaled", "zero")
+PATTERNS = ("generic", "int", "pure_imag", "axis", "sparse", "unit", "scaled", "zero", "units")
 WEIGHTED_PATTERNS = ("generic",) * 4 + ("int",) * 2 + ("pure_imag",) * 2 + ("sparse",) * 2 + ("scaled",) * 2 + (
-    "axis", "unit", "zero")
+    "axis", "unit", "zero", "units", "units")
+
+
+BASIS_UNITS = [np.array(v, dtype=float) for v in
+               ([1, 0, 0, 0], [0, 1, 0, 0], [0, 0, 1, 0], [0, 0, 0, 1],
+                [-1, 0, 0, 0], [0, -1, 0, 0], [0, 0, -1, 0], [0, 0, 0, -1])]
 
 
 def _arr(shape, elements):
@@ -78,6 +83,14 @@ def qarray(draw, m, n, pattern=None, emin=0, emax=0):
         j = draw(st.integers(0, n - 1))
         c = draw(st.integers(0, 3))
         A[i, j, c] = draw(st.sampled_from([1.0, -1.0]))
+    elif pattern == "units":
+        # every entry from {0, +-1, +-i, +-j, +-k}: moduli exactly 1, exact ties, exact cancellations
+        idx = draw(hnp.arrays(np.int64, (m, n), elements=st.integers(0, 9), fill=st.nothing()))
+        A = np.zeros(shape)
+        for i in range(m):
+            for j in range(n):
+                if idx[i, j] < 8:
+                    A[i, j] = BASIS_UNITS[int(idx[i, j])]
     elif pattern == "scaled":
         A = draw(_arr(shape, dyadic(0, 0, 64)))
         e = draw(st.integers(emin, emax))
@@ -98,11 +111,6 @@ def nonzero_q(kmax=32):
     """4-vector with modulus >= 1/16."""
     return hnp.arrays(np.float64, (4,), elements=dyadic(0, 0, kmax), fill=st.nothing()).filter(
         lambda v: float(np.sum(v * v)) > 0.0)
-
-
-BASIS_UNITS = [np.array(v, dtype=float) for v in
-               ([1, 0, 0, 0], [0, 1, 0, 0], [0, 0, 1, 0], [0, 0, 0, 1],
-                [-1, 0, 0, 0], [0, -1, 0, 0], [0, 0, -1, 0], [0, 0, 0, -1])]
 
 
 @st.composite
